@@ -18,7 +18,7 @@ RULE = ('case = (API in {pmap, piter, piter_fn, piter_multiplex, MultiplexIterat
         'values are collected; on early stop / failure a duplicate-free sub-multiset, the consumer sees the failure; afterwards '
         'every submitted task has finished, no virtual thread is blocked and MultiplexIterator has shut its pool down; non-trivial '
         '= parallelism >= 2 (or >= 2 inputs) and >= 1 preemption; distinct = distinct canonical case JSON'
-        '; also: an in-process MultiplexIterator over a thread-fed queue, pools with fewer threads than sources, 257..300 sources, return values of many kinds; a consumer interrupted by KeyboardInterrupt inside next() of a MultiplexIterator; scenario two_default_pipelines: two piter() pipelines on default pools, the later one drained first')
+        '; also: an in-process MultiplexIterator over a thread-fed queue, pools with fewer threads than sources, 257..300 sources, return values of many kinds; a consumer interrupted by KeyboardInterrupt inside next() of a MultiplexIterator; scenario two_default_pipelines: two piter() pipelines on default pools, the later one drained first; scenario parallel_iteration_line_preemption: the same cases with 1..4 generated preemptions between source lines of the library and 0..2 while a thread is inside one of the input generators (line-level preemption of the deterministic scheduler)')
 ASSUMPTIONS = [
     'same scheduler trusted base as C04; the shim ThreadPoolExecutor starts a worker per submitted task up to max_workers',
 ]
@@ -114,7 +114,19 @@ def run_case(case):
     # all helper work must be able to finish: shutting the caller's pool down must not hang
     pool.shutdown(wait=True)
   try:
-    _, s = dsched.run(main, case['schedule'], max_steps=40000 if len(lens) < 50 else 600000)
+    if case.get('line_fracs'):
+      # line-level preemption: the same schedule is first run without targets to learn how many library lines the run
+      # executes, then again with 1..4 preemptions between source lines at the drawn fractions of that count
+      _, s0 = dsched.run(main, dict(case['schedule'], count_lines=True), max_steps=40000)
+      out.clear()
+      info.clear()
+      reset_module_caches(iter_utils)
+      total, ftotal = max(s0.lines, 1), max(s0.focus_lines, 1)
+      _, s = dsched.run(main, dict(case['schedule'], line_preempt=[[1 + int(f * (total - 1)), c] for f, c in case['line_fracs']],
+                                   focus_preempt=[[1 + int(f * (ftotal - 1)), c] for f, c in case.get('focus_fracs', [])]),
+                        max_steps=40000)
+    else:
+      _, s = dsched.run(main, case['schedule'], max_steps=40000 if len(lens) < 50 else 600000)
   except dsched.Deadlock as e:
     raise Violation('helper-threads-do-not-finish', f'{what}: {e}') from e
   except dsched.StepBudget as e:
@@ -168,6 +180,10 @@ def run_case(case):
       check(mp._shutdown and mp.all_finished(), 'multiplex-pool-not-shut-down',  # pylint: disable=protected-access
             f'{what}: pool shutdown={mp._shutdown}, workers finished={mp.all_finished()}')  # pylint: disable=protected-access
   nt = (par >= 2 or len(lens) >= 2) and s.preemptions >= 1
+  if case.get('line_fracs'):
+    return {'nontrivial': nt and s.line_preemptions >= 1,
+            'classes': [f'api-{api}', f'outcome-{oc["kind"]}', f'par-{par}', f'line-preemptions-{min(s.line_preemptions, 3)}'],
+            'extra': {'scheduling_points': s.steps, 'preemptions': s.preemptions, 'library_lines': s.lines, 'line_preemptions': s.line_preemptions}}
   return {'nontrivial': nt, 'classes': [f'api-{api}', f'outcome-{oc["kind"]}', f'par-{par}', f'sched-{case["schedule"]["mode"]}'],
           'extra': {'scheduling_points': s.steps, 'preemptions': s.preemptions}}
 
@@ -262,9 +278,30 @@ def strat(tier):
   return s()
 
 
+def strat_lines(tier):
+  @st.composite
+  def s(draw):
+    case = draw(strat(tier).filter(lambda c: len(c['inputs']) < 50 and c['outcome']['kind'] != 'interrupt'))
+    case['line_fracs'] = draw(st.lists(st.tuples(st.floats(0, 1, allow_nan=False), st.integers(0, 3)), min_size=1, max_size=4))
+    # ... and 0..2 preemptions while a thread is inside one of the (shared) input generators
+    case['focus_fracs'] = draw(st.lists(st.tuples(st.floats(0, 1, allow_nan=False), st.integers(0, 3)), min_size=0, max_size=2))
+    return case
+  return s()
+
+
+def setup_lines():
+  import ml_metrics  # pylint: disable=g-import-not-at-top
+  import os  # pylint: disable=g-import-not-at-top
+  setup()
+  # the generated input generators count as well: a thread can lose the processor while it is inside the shared input
+  dsched.set_line_root(os.path.dirname(os.path.realpath(ml_metrics.__file__)) + os.sep, extra_codes=[src.__code__])
+
+
 SCENARIOS = [
     Scenario('parallel_iteration', run_case, strategy=strat, setup=setup, budget={'quick': 5000, 'thorough': 100000},
              shards={'quick': 12, 'thorough': 16}),
+    Scenario('parallel_iteration_line_preemption', run_case, strategy=strat_lines, setup=setup_lines, budget={'quick': 800, 'thorough': 15000},
+             shards={'quick': 8, 'thorough': 16}),
     Scenario('two_default_pipelines', run_two, strategy=strat_two, setup=setup, budget={'quick': 300, 'thorough': 5000},
              shards={'quick': 2, 'thorough': 8}),
 ]
